@@ -1,17 +1,53 @@
 package main
 
 // Token-level families.
-//   legit (C05): mint -> attenuation steps by holders working from bytes -> discharges (proof and
-//   non-proof, bound or not) -> Verify; every produced byte string must be reproduced by the model
+//   legit (C05; also run by C04 and C11): mint -> attenuation steps by holders working from bytes -> discharges
+//   (proof and non-proof, bound or not) -> Verify; every produced byte string must be reproduced by the model
 //   from the extracted randomness, and Verify must return the expected caveat list.
+//
+// What one history of famLegit draws (every choice is counted in meta.json):
+//   mint         key of 32 bytes or 0 (nil / empty), 1, 16, 31, 33, 64, 65, 128; key-id of 0, 1, 8, 16, 31, 32, 255, 256,
+//                300 bytes (65535 / 65536 in the thorough tier); location plain, or with a trailing slash, upper case,
+//                port, query, leading blank, Unicode, bytes that are not UTF-8, 31 / 32 / 255 / 256 characters (65536
+//                thorough); new nonce format, or the old one hand-built with a random part of 0..32 bytes; a refused
+//                mint is reported
+//   steps        0..4 (8..15 sometimes, thorough); before a step possibly a hop: decode(encode), Clone, String -> Parse
+//                (bare or behind the scheme name) -> Decode, or two hops in a row
+//   arguments    0..3 per Add call from: WireCav / wideCav values (a value of registered kinds that does not survive a
+//                hop is REPORTED, not skipped), byte-identical re-adds (same object / equal copy), near-duplicates (same
+//                body under another type also sharing the Go map, one field off, a key more, other letter case, other
+//                order), the same new value twice in one call, nests of 4..40 conditionals, 210 and 1030 caveats in one
+//                call, third-party caveats (0..3 usually, up to 12 thorough; locations that are spellings of one host;
+//                third parties sharing a key; the same value twice in one call; via NewCaveat3P+Add or via Add3P),
+//                and arguments that must be REFUSED and leave the token usable: a second caveat for a used location
+//                (new value / same value again), an attestation on a non-proof token
+//   discharges   per third-party caveat a genuine one (sometimes two, the first presented decides): proof (extra caveats,
+//                attestations, hand-written bindings of 1..32 bytes, Bind to the final token or to ANY earlier version
+//                of it, once or twice, clone before the first encode, add-after-encode refused + encode again) or
+//                non-proof (three-field nonce, or two-field hand-built; attenuated again after a hop; bound to the final
+//                token or an ancestor); under the caveat's location or another one
+//   presentation candidates that do not fit, the same discharge twice, junk (random bytes, empty, nil, an unrelated
+//                token, the token itself, a discharge of another ticket) at any position, the whole list shuffled or not
+//   trust        nil map / empty map / the right key alone / behind and in front of keys that do not open the ticket
+//                (also of the wrong size) / only such keys / the right key under another location; attestations of a
+//                proof come back iff its key is listed under the discharge's own location
+//   oracles      Verify returns exactly first-party caveats in order of addition (duplicates collapsed) ++ the kept
+//                caveats of the first fitting candidate per third-party caveat in CAVEAT order; the same on the object
+//                in hand and on a second call; arguments and token unchanged; the ticket yields the author's caveats
+//   then         a fork (Clone or second Decode; both branches attenuated, either order, both verified with the common
+//                discharges), values outside the modelled value space (nil key-id, nil maps / slices / set pointer:
+//                (const match), judged on the Go side alone), the same third-party caveat value on a second token, one
+//                caveat list applied to two tokens
 
 import (
 	"bytes"
 	"crypto/sha256"
 	"fmt"
+	"math/big"
 	"strings"
 
 	"github.com/superfly/macaroon"
+	"github.com/superfly/macaroon/auth"
 	"github.com/superfly/macaroon/flyio"
 	"github.com/superfly/macaroon/resset"
 )
@@ -89,21 +125,791 @@ func oldFormatToken(key, kid, rnd []byte, loc string) []byte {
 	return out
 }
 
+// ---- family-local generators (wider pools than gen.go / WireCav; every choice is counted) ----
+
+// a minting key is any byte string (an HMAC key): empty, nil, short, block-sized and longer than the SHA-256 block
+func (r *Rng) legitKey(o *Out) []byte {
+	if r.Chance(4, 5) {
+		o.count("key.len32")
+		return r.Bytes(32)
+	}
+	n := pick(r, []int{0, 1, 16, 31, 33, 64, 65, 128})
+	o.count(fmt.Sprintf("key.len%d", n))
+	if n == 0 && r.Bool() {
+		o.count("key.nil")
+		return nil
+	}
+	return r.Bytes(n)
+}
+
+// key-ids: empty (non-nil), every bin8 / bin16 header boundary (the bin32 boundary in the thorough tier)
+func (r *Rng) legitKid(o *Out, tier string) []byte {
+	n := pick(r, []int{1, 8, 16, 0, 300, 31, 32, 255, 256})
+	if tier == "thorough" && r.Chance(1, 400) {
+		n = pick(r, []int{65535, 65536})
+	}
+	o.count(fmt.Sprintf("kid.len%d", n))
+	return r.Bytes(n)
+}
+
+var legitLocsPlain = []string{"https://api.fly.io/v1", "loc", ""}
+var legitLocsWide = []string{"https://api.fly.io/v1/", "HTTPS://API.FLY.IO/V1", "https://api.fly.io/v1?x=1&y=2", "https://api.fly.io:443/v1#f",
+	" https://api.fly.io/v1", "https://\xc3\xa9.example/\xe2\x84\xaa", "\xff\xfe\x00", "a\x00b", strings.Repeat("l", 31), strings.Repeat("l", 32),
+	strings.Repeat("l", 255), strings.Repeat("l", 256)}
+
+// the location of a token is any string (it is not signed, but every hop must carry it unchanged)
+func (r *Rng) legitLoc(o *Out, tier string) string {
+	if tier == "thorough" && r.Chance(1, 400) {
+		o.count("loc.str32")
+		return strings.Repeat("L", pick(r, []int{65535, 65536}))
+	}
+	if r.Chance(2, 3) {
+		o.count("loc.plain")
+		return pick(r, legitLocsPlain)
+	}
+	o.count("loc.wide")
+	return pick(r, legitLocsWide)
+}
+
+// third-party locations: the three names used so far, then spellings that differ only in case, a trailing slash, a
+// port, a query, leading white space, Unicode, bytes that are not UTF-8, the empty string, a long one - all of them
+// DIFFERENT locations for Add's one-caveat-per-location rule
+var legitPartyLocs = []string{"https://auth.example", "https://other.example", "tp3", "", "https://auth.example/", "HTTPS://AUTH.EXAMPLE",
+	"https://Auth.Example", "https://auth.example/v1?x=1", "https://auth.example:443", " https://auth.example", "https://\xc3\xa9.example",
+	"\xff", strings.Repeat("p", 300)}
+
+var legitPartyCluster = []string{"https://auth.example", "https://auth.example/", "HTTPS://AUTH.EXAMPLE", "https://Auth.Example", "https://auth.example:443", " https://auth.example", "https://auth.example/v1?x=1"}
+
+func (r *Rng) legitParties(o *Out, tier string) []tpParty {
+	n := 3
+	if r.Chance(1, 4) {
+		n = 4 + r.Intn(3)
+	}
+	if tier == "thorough" && r.Chance(1, 10) {
+		n = 7 + r.Intn(6)
+	}
+	var locs []string
+	shuffle := func(xs []string) []string {
+		xs = append([]string{}, xs...)
+		for i := len(xs) - 1; i > 0; i-- {
+			j := r.Intn(i + 1)
+			xs[i], xs[j] = xs[j], xs[i]
+		}
+		return xs
+	}
+	switch r.Intn(4) {
+	case 0, 1:
+		locs = append(locs, legitPartyLocs[:3]...) // the old pool in its old order
+		o.count("parties.plain")
+	case 2:
+		// spellings of ONE host first (they meet in one token), then the rest
+		locs = append(shuffle(legitPartyCluster), shuffle(legitPartyLocs[1:])...)
+		o.count("parties.lookalikes")
+	default:
+		locs = shuffle(legitPartyLocs)
+		o.count("parties.wide")
+	}
+	// (no location twice)
+	uniq := locs[:0:0]
+	for _, l := range locs {
+		dup := false
+		for _, u := range uniq {
+			dup = dup || u == l
+		}
+		if !dup {
+			uniq = append(uniq, l)
+		}
+	}
+	locs = uniq
+	if n > len(locs) {
+		n = len(locs)
+	}
+	ps := make([]tpParty, n)
+	for i := range ps {
+		ps[i] = tpParty{locs[i], r.Bytes(32)}
+		// two third parties may share one key (one service under two names)
+		if i > 0 && r.Chance(1, 6) {
+			ps[i].ka = ps[r.Intn(i)].ka
+			o.count("parties.sharedKey")
+		}
+	}
+	return ps
+}
+
+// hopStable: the value survives a hop (encode, decode, encode) byte for byte and is a first-party, non-attestation
+// kind; an unregistered caveat is handed out in its decoded form
+func hopStable(c macaroon.Caveat) (macaroon.Caveat, bool) {
+	if c == nil || !isPlainKind(c) || containsAttestation(c) {
+		return nil, false
+	}
+	b, err := encOne(c)
+	if err != nil {
+		return nil, false
+	}
+	cs, err := macaroon.DecodeCaveats(b)
+	if err != nil || len(cs.Caveats) != 1 {
+		return nil, false
+	}
+	b2, err := cs.MarshalMsgpack()
+	if err != nil || string(b2) != string(b) {
+		return nil, false
+	}
+	if _, ok := c.(*macaroon.UnregisteredCaveat); ok {
+		return cs.Caveats[0], true
+	}
+	return c, true
+}
+
+// legitCav: three quarters from the pools the family always used, a quarter from the wide pools of fam_wire.go (zero
+// ids, case variants, ids that are prefixes of each other, NFC/NFD, exact map sizes around the header boundaries,
+// nil / long / repetitive conditionals, array16 lists, unknown types at every boundary with non-minimal bodies)
+func (r *Rng) legitCav(o *Out, depth int, tier string) macaroon.Caveat {
+	if r.Chance(1, 4) {
+		for tries := 0; tries < 30; tries++ {
+			if c, ok := legitStable(o, r.wideCav(o, depth, tier)); ok {
+				o.count("cav.wide")
+				return c
+			}
+		}
+	}
+	o.count("cav.narrow")
+	for {
+		if c, ok := legitStable(o, r.WireCav(depth)); ok {
+			return c
+		}
+	}
+}
+
+func legitHasUnreg(c macaroon.Caveat) bool {
+	if _, ok := c.(*macaroon.UnregisteredCaveat); ok {
+		return true
+	}
+	if w, ok := c.(macaroon.WrapperCaveat); ok && w.Unwrap() != nil {
+		for _, x := range w.Unwrap().Caveats {
+			if legitHasUnreg(x) {
+				return true
+			}
+		}
+	}
+	return false
+}
+
+// legitStable: hopStable, but a value of REGISTERED kinds only that does not survive a hop is reported, not skipped
+// (on the unchanged library the only values that do not are unregistered caveats with bodies the generic decoder
+// normalises): the filter must not hide a defect of the codec from this family
+func legitStable(o *Out, c macaroon.Caveat) (macaroon.Caveat, bool) {
+	if c == nil || !isPlainKind(c) || containsAttestation(c) {
+		return nil, false
+	}
+	c2, ok := hopStable(c)
+	if !ok && !legitHasUnreg(c) {
+		o.emit("(const match)", fmt.Sprintf("value-of-registered-kinds-does-not-survive-a-hop:%T", c))
+	}
+	return c2, ok
+}
+
+// legitCavCopy: an equal value in another object (what a holder who decoded the token has in hand)
+func legitCavCopy(c macaroon.Caveat) macaroon.Caveat {
+	b, err := encOne(c)
+	if err != nil {
+		return c
+	}
+	cs, err := macaroon.DecodeCaveats(b)
+	if err != nil || len(cs.Caveats) != 1 {
+		return c
+	}
+	return cs.Caveats[0]
+}
+
+func (r *Rng) attestCav(o *Out) macaroon.Caveat {
+	switch r.Intn(3) {
+	case 0:
+		u := auth.FlyioUserID(r.wU64())
+		o.count("attest.flyio")
+		return &u
+	case 1:
+		u := auth.GitHubUserID(r.wU64())
+		o.count("attest.github")
+		return &u
+	default:
+		u := auth.GoogleUserID(*new(big.Int).SetBytes(r.Bytes(pick(r, []int{0, 1, 8, 9, 21}))))
+		o.count("attest.google")
+		return &u
+	}
+}
+
+func legitStrSetOf(c macaroon.Caveat) (resset.ResourceSet[string, resset.Action], int) {
+	switch v := c.(type) {
+	case *flyio.Volumes:
+		return v.Volumes, 0
+	case *flyio.Machines:
+		return v.Machines, 1
+	case *flyio.FeatureSet:
+		return v.Features, 2
+	case *flyio.MachineFeatureSet:
+		return v.Features, 3
+	case *flyio.AppFeatureSet:
+		return v.Features, 4
+	case *flyio.Clusters:
+		return v.Clusters, 5
+	}
+	return nil, -1
+}
+
+func legitMkStrSet(kind int, m resset.ResourceSet[string, resset.Action]) macaroon.Caveat {
+	switch kind {
+	case 0:
+		return &flyio.Volumes{Volumes: m}
+	case 1:
+		return &flyio.Machines{Machines: m}
+	case 2:
+		return &flyio.FeatureSet{Features: m}
+	case 3:
+		return &flyio.MachineFeatureSet{Features: m}
+	case 4:
+		return &flyio.AppFeatureSet{Features: m}
+	case 5:
+		return &flyio.Clusters{Clusters: m}
+	default:
+		p := resset.ResourceSet[resset.Prefix, resset.Action]{}
+		for k, v := range m {
+			p[resset.Prefix(k)] = v
+		}
+		return &flyio.StorageObjects{Prefixes: p}
+	}
+}
+
+func legitFlipCase(s string) string {
+	if u := strings.ToUpper(s); u != s {
+		return u
+	}
+	return strings.ToLower(s)
+}
+
+// nearDup: a caveat that is NOT a duplicate of c although it looks like one - the same body under another type
+// number (also the very same Go map object under two types), or the same type with one field off by one, a key more,
+// another letter case, another order.  Both must end up in the token and in the verified list.  nil: no neighbour.
+func (r *Rng) nearDup(o *Out, c macaroon.Caveat) macaroon.Caveat {
+	other := func(kind string, cs ...macaroon.Caveat) macaroon.Caveat {
+		o.count("neardup." + kind)
+		return pick(r, cs)
+	}
+	if m, k := legitStrSetOf(c); k >= 0 {
+		switch r.Intn(3) {
+		case 0:
+			return other("strset.othertype.samemap", legitMkStrSet((k+1+r.Intn(5))%6, m), legitMkStrSet(6, m))
+		case 1:
+			m2 := resset.ResourceSet[string, resset.Action]{"extra": 1}
+			for id, a := range m {
+				m2[id] = a
+			}
+			return other("strset.superset", legitMkStrSet(k, m2))
+		default:
+			m2 := resset.ResourceSet[string, resset.Action]{}
+			for id, a := range m {
+				m2[legitFlipCase(id)] = a
+			}
+			return other("strset.case", legitMkStrSet(k, m2))
+		}
+	}
+	switch v := c.(type) {
+	case *auth.ConfineUser:
+		return other("id.struct", &auth.ConfineOrganization{ID: v.ID}, &flyio.IsUser{ID: v.ID}, &auth.ConfineUser{ID: v.ID + 1})
+	case *auth.ConfineOrganization:
+		return other("id.struct", &auth.ConfineUser{ID: v.ID}, &flyio.IsUser{ID: v.ID}, &auth.ConfineOrganization{ID: v.ID - 1})
+	case *flyio.IsUser:
+		return other("id.struct", &auth.ConfineUser{ID: v.ID}, &auth.ConfineOrganization{ID: v.ID}, &flyio.IsUser{ID: v.ID ^ 1})
+	case *flyio.Organization:
+		return other("org", &flyio.Organization{ID: v.ID, Mask: v.Mask ^ 1}, &flyio.Organization{ID: v.ID + 1, Mask: v.Mask}, &flyio.Organization{ID: uint64(v.Mask), Mask: resset.Action(v.ID)})
+	case *flyio.Apps:
+		m2 := resset.ResourceSet[uint64, resset.Action]{1<<64 - 1: 1}
+		for id, a := range v.Apps {
+			m2[id] = a
+		}
+		return other("apps.superset", &flyio.Apps{Apps: m2})
+	case *flyio.StorageObjects:
+		m := resset.ResourceSet[string, resset.Action]{}
+		for id, a := range v.Prefixes {
+			m[string(id)] = a
+		}
+		return other("strset.othertype", legitMkStrSet(r.Intn(6), m))
+	case *macaroon.ValidityWindow:
+		return other("window", &macaroon.ValidityWindow{NotBefore: v.NotBefore, NotAfter: v.NotAfter + 1}, &macaroon.ValidityWindow{NotBefore: v.NotAfter, NotAfter: v.NotBefore},
+			&macaroon.ValidityWindow{NotBefore: v.NotBefore - 1, NotAfter: v.NotAfter})
+	case *flyio.Mutations:
+		rev := make([]string, len(v.Mutations))
+		for i, s := range v.Mutations {
+			rev[len(rev)-1-i] = s
+		}
+		return other("mutations", &flyio.Mutations{Mutations: append(append([]string{}, v.Mutations...), "")}, &flyio.Mutations{Mutations: append(rev, "x")})
+	case *flyio.FromMachine:
+		return other("text", &flyio.FromMachine{ID: v.ID + "/"}, &flyio.FromMachine{ID: legitFlipCase(v.ID) + "k"}, &flyio.FromMachine{ID: v.ID + "\x00"})
+	case *auth.ConfineGoogleHD:
+		a, b := auth.ConfineGoogleHD(string(*v)+"."), auth.ConfineGoogleHD(legitFlipCase(string(*v))+"K")
+		return other("text", &a, &b)
+	case *auth.ConfineGitHubOrg:
+		a, b := auth.MaxValidity(uint64(*v)), auth.ConfineGitHubOrg(uint64(*v)+1)
+		return other("bareint.othertype", &a, &b)
+	case *auth.MaxValidity:
+		a, b := auth.ConfineGitHubOrg(uint64(*v)), auth.MaxValidity(uint64(*v)-1)
+		return other("bareint.othertype", &a, &b)
+	case *resset.Action:
+		a := *v ^ 1
+		return other("action", &a)
+	case *flyio.AllowedRoles:
+		a := *v ^ 1
+		return other("roles", &a)
+	case *flyio.FlySrc:
+		return other("flysrc", &flyio.FlySrc{Organization: v.App, App: v.Organization, Instance: v.Instance + "x"}, &flyio.FlySrc{Organization: v.Organization, App: v.App, Instance: v.Instance + " "})
+	case *flyio.Commands:
+		c2 := append(append(flyio.Commands{}, *v...), flyio.Command{Args: []string{"near"}, Exact: true})
+		return other("commands", &c2)
+	case *resset.IfPresent:
+		if v.Ifs == nil {
+			return nil
+		}
+		return other("conditional", &resset.IfPresent{Ifs: v.Ifs, Else: v.Else ^ 1}, &resset.IfPresent{Ifs: macaroon.NewCaveatSet(append(append([]macaroon.Caveat{}, v.Ifs.Caveats...), &flyio.IsMember{})...), Else: v.Else})
+	}
+	return nil
+}
+
+// legitAdd runs m.Add(items...) on the real token and emits the model operations that must reproduce it (as doAdd
+// of tokens.go, but the sealing nonce of every third-party caveat is found by its ticket: one call may name the same
+// caveat value twice, or fail half way)
+func legitAdd(o *Out, m *macaroon.Macaroon, items []addItem) error {
+	before := mustEnc(m)
+	nBefore := len(m.UnsafeCaveats.Caveats)
+	own := map[string]bool{}
+	for _, c := range m.UnsafeCaveats.Caveats {
+		if _, isTP := c.(*macaroon.Caveat3P); isTP {
+			own[sxCav(c)] = true
+		}
+	}
+	cavs := make([]macaroon.Caveat, len(items))
+	for i, it := range items {
+		cavs[i] = it.cav
+	}
+	err := m.Add(cavs...)
+	after, eerr := m.Encode()
+	afterS := "err-encode"
+	if eerr == nil {
+		afterS = hx(after)
+	}
+	vk := map[string][]byte{}
+	if nBefore <= len(m.UnsafeCaveats.Caveats) {
+		for _, c := range m.UnsafeCaveats.Caveats[nBefore:] {
+			if c3, ok := c.(*macaroon.Caveat3P); ok && len(c3.VerifierKey) >= 12 {
+				vk[string(c3.Ticket)] = c3.VerifierKey[:12]
+			}
+		}
+	}
+	parts := make([]string, len(items))
+	emitted := map[string]bool{}
+	for i, it := range items {
+		if it.tp == nil {
+			parts[i] = "(c " + sxCav(it.cav) + ")"
+			continue
+		}
+		if !emitted[string(it.tp.ticket)] {
+			emitted[string(it.tp.ticket)] = true
+			o.emit(fmt.Sprintf("(tok.ticket %s %s %s %s)", hx(it.tp.ka), sxCavs(it.tp.cavs), hx(it.tp.rn), hx(it.tp.ticket[:12])), hx(it.tp.ticket))
+		}
+		// the token's OWN copy of a third-party caveat (sealed key filled in) handed to Add once more: to the library
+		// and to the model it is a caveat like any other, collapsed as the duplicate it is
+		if c3, isTP := it.cav.(*macaroon.Caveat3P); isTP && len(c3.VerifierKey) > 0 && own[sxCav(c3)] {
+			parts[i] = "(c " + sxCav(c3) + ")"
+			continue
+		}
+		n, ok := vk[string(it.tp.ticket)]
+		if !ok {
+			n = make([]byte, 12)
+		}
+		parts[i] = fmt.Sprintf("(new3p %s %s %s %s)", hs(it.tp.loc), hx(it.tp.ticket), hx(it.tp.rn), hx(n))
+	}
+	res := "ok " + afterS
+	if err != nil {
+		res = "err:" + addClass(err) + " " + afterS
+	}
+	o.emit(fmt.Sprintf("(tok.add %s (%s))", hx(before), strings.Join(parts, " ")), res)
+	return err
+}
+
+// legitAdd3P: the convenience entry point Add3P(ka, loc, cs...) - the caveat is made inside the library, so ticket,
+// discharge key and sealing nonce are read off the token afterwards
+func legitAdd3P(o *Out, m *macaroon.Macaroon, p tpParty, tcavs []macaroon.Caveat) (addItem, bool) {
+	before := mustEnc(m)
+	nBefore := len(m.UnsafeCaveats.Caveats)
+	err := m.Add3P(p.ka, p.loc, tcavs...)
+	if err != nil || len(m.UnsafeCaveats.Caveats) != nBefore+1 {
+		o.emit("(const match)", "add3p-refused-or-did-not-append-one-caveat")
+		return addItem{}, false
+	}
+	c3, ok := m.UnsafeCaveats.Caveats[nBefore].(*macaroon.Caveat3P)
+	if !ok || len(c3.VerifierKey) < 12 || len(c3.Ticket) < 12 {
+		o.emit("(const match)", "add3p-appended-something-else")
+		return addItem{}, false
+	}
+	rn, ok := ticketKey(p.ka, c3.Ticket)
+	if !ok {
+		o.emit("(const match)", "add3p-ticket-does-not-open-under-the-third-party-key")
+		return addItem{}, false
+	}
+	o.emit(fmt.Sprintf("(tok.ticket %s %s %s %s)", hx(p.ka), sxCavs(tcavs), hx(rn), hx(c3.Ticket[:12])), hx(c3.Ticket))
+	o.emit(fmt.Sprintf("(tok.add %s ((new3p %s %s %s %s)))", hx(before), hs(p.loc), hx(c3.Ticket), hx(rn), hx(c3.VerifierKey[:12])), "ok "+hx(mustEnc(m)))
+	return addItem{cav: c3, tp: &tpInfo{p.ka, p.loc, tcavs, c3.Ticket, rn}}, true
+}
+
+// legitHop: the next holder works from what the previous one sent: the encoded token decoded again, a Clone, or the
+// printed form (String: "fm2_" + base64) parsed back
+func legitHop(r *Rng, o *Out, tok *macaroon.Macaroon) (*macaroon.Macaroon, bool) {
+	fail := func(enc []byte, what string) (*macaroon.Macaroon, bool) {
+		// a token the library itself produced must come back: report it, give up this history
+		o.emit("(dec.mac "+hexb(enc)+")", "err")
+		o.emit("(const match)", what)
+		return nil, false
+	}
+	enc := mustEnc(tok)
+	switch k := r.Intn(10); {
+	case k < 5:
+		o.count("hop.decode")
+		t2, err := macaroon.Decode(enc)
+		if err != nil {
+			return fail(enc, "legit-token-does-not-decode:"+strings.ReplaceAll(err.Error(), " ", "_"))
+		}
+		return t2, true
+	case k < 7:
+		o.count("hop.clone")
+		t2, err := tok.Clone()
+		if err != nil {
+			return fail(enc, "legit-token-does-not-clone:"+strings.ReplaceAll(err.Error(), " ", "_"))
+		}
+		return t2, true
+	case k < 9:
+		o.count("hop.string")
+		s, err := tok.String()
+		if err != nil {
+			return fail(enc, "legit-token-does-not-print")
+		}
+		if r.Bool() {
+			s = macaroon.ToAuthorizationHeader(enc) // the same text behind the scheme name
+		}
+		toks, err := macaroon.Parse(s)
+		if err != nil || len(toks) != 1 || !bytes.Equal(toks[0], enc) {
+			return fail(enc, "printed-token-does-not-parse-back-to-its-bytes")
+		}
+		t2, err := macaroon.Decode(toks[0])
+		if err != nil {
+			return fail(enc, "legit-token-does-not-decode:"+strings.ReplaceAll(err.Error(), " ", "_"))
+		}
+		return t2, true
+	default:
+		o.count("hop.double")
+		t2, err := macaroon.Decode(enc)
+		if err != nil {
+			return fail(enc, "legit-token-does-not-decode:"+strings.ReplaceAll(err.Error(), " ", "_"))
+		}
+		enc2 := mustEnc(t2)
+		t3, err := macaroon.Decode(enc2)
+		if err != nil || !bytes.Equal(enc, enc2) {
+			return fail(enc2, "second-hop-changes-the-token")
+		}
+		return t3, true
+	}
+}
+
+type legitTP struct {
+	p      tpParty
+	ticket []byte
+	rn     []byte
+	tcavs  []macaroon.Caveat
+	it     addItem // the very caveat value that was passed to Add
+}
+
+// one byte string presented to Verify as a discharge
+type legitCand struct {
+	tp   int    // which third-party caveat (index in caveat order) it is a candidate for; -1: none
+	enc  []byte // what is presented
+	cavs []macaroon.Caveat
+	fits bool
+	dloc string
+	ka   []byte
+}
+
+// legitDischarge: one genuine discharge of u for the token `final` (earlier versions of it: ancestors)
+func (r *Rng) legitDischarge(o *Out, tier string, u legitTP, final []byte, ancestors [][]byte) legitCand {
+	proof := r.Chance(3, 4)
+	// the location a discharge carries is the third party's own choice (an argument of DischargeTicket, not
+	// signed into the ticket): a discharge minted under another spelling, another name or none at all is
+	// still the discharge of that ticket; trusted keys are looked up under the discharge's own location
+	dloc := u.p.loc
+	if r.Chance(1, 4) {
+		dloc = pick(r, []string{u.p.loc + "/", strings.ToUpper(u.p.loc), "", "https://elsewhere.example", u.p.loc + "?x=1"})
+		o.count("discharge.otherLocation")
+	}
+	// a discharge may be bound to the token it accompanies or to any earlier version of it (every attenuation of
+	// the token it was bound to keeps it usable)
+	parent := func() []byte {
+		if r.Bool() {
+			o.count("bound.to.final")
+			return final
+		}
+		o.count("bound.to.ancestor")
+		return pick(r, ancestors)
+	}
+	var extra []macaroon.Caveat
+	for j, mm := 0, r.Intn(3); j < mm; j++ {
+		extra = append(extra, r.legitCav(o, 1, tier))
+	}
+	var dm *macaroon.Macaroon
+	var enc []byte
+	if proof {
+		tcs, d, err := macaroon.DischargeTicket(u.p.ka, dloc, u.ticket)
+		if err != nil {
+			o.emit("(const match)", "own-ticket-refused-by-DischargeTicket")
+			return legitCand{tp: -1, enc: []byte{}}
+		}
+		o.count("discharge.proof")
+		if sxCavs(tcs) != sxCavs(u.tcavs) {
+			o.emit("(const match)", "ticket-caveats-differ-from-what-the-author-attached")
+		}
+		dm = d
+		ops := []string{}
+		outs := []string{}
+		add := func(c macaroon.Caveat) {
+			err := dm.Add(c)
+			ops = append(ops, "(add "+sxCav(c)+")")
+			if err != nil {
+				outs = append(outs, "add:"+addClass(err))
+			} else {
+				outs = append(outs, "add:ok")
+			}
+		}
+		for _, c := range extra {
+			add(c)
+		}
+		// a proof may carry attestations (returned when the discharge's key is a trusted one, dropped otherwise)
+		if r.Chance(1, 4) {
+			for j, mm := 0, 1+r.Intn(2); j < mm; j++ {
+				add(r.attestCav(o))
+			}
+			o.count("discharge.withAttestation")
+		}
+		// a binding caveat is "a prefix of the SHA-256 of the parent's tail": Bind writes 16 bytes, any other
+		// length (shorter, longer, the whole digest) is just as legitimate when written by hand
+		if r.Chance(1, 4) {
+			if fm, err := macaroon.Decode(parent()); err == nil {
+				dg := sha256.Sum256(fm.Tail)
+				bc := macaroon.BindToParentToken(dg[:pick(r, []int{1, 2, 8, 15, 17, 20, 31, 32})])
+				add(&bc)
+				o.count(fmt.Sprintf("bound.byhand.len%d", len(bc)))
+			}
+		}
+		if r.Bool() {
+			ps := [][]byte{parent()}
+			if r.Chance(1, 5) {
+				ps = append(ps, parent()) // bound twice (the caveat "may appear multiple times")
+				o.count("bound.twice")
+			}
+			for _, p := range ps {
+				err := dm.Bind(p)
+				ops = append(ops, "(bind "+hx(p)+")")
+				if err != nil {
+					outs = append(outs, "bind:"+addClass(err))
+				} else {
+					outs = append(outs, "bind:ok")
+				}
+			}
+			o.count("bound")
+		}
+		// the third party may hand out a CLONE taken before the proof was ever encoded: it is as good
+		var cloneEnc []byte
+		if r.Chance(1, 3) {
+			ops = append(ops, "clone")
+			if cl, err := dm.Clone(); err != nil {
+				outs = append(outs, "clone:err")
+			} else {
+				cloneEnc = mustEnc(cl)
+				outs = append(outs, "clone:"+hx(cloneEnc))
+			}
+			o.count("discharge.clonedBeforeEncode")
+		}
+		enc = mustEnc(dm)
+		ops = append(ops, "encode")
+		outs = append(outs, "enc:"+hx(enc))
+		// somebody tries to add to the finished proof (refused: the proof is what it was) and it is encoded again
+		if r.Chance(1, 6) {
+			add(r.legitCav(o, 0, tier))
+			enc = mustEnc(dm)
+			ops = append(ops, "encode")
+			outs = append(outs, "enc:"+hx(enc))
+			o.count("discharge.addAfterEncode")
+		}
+		if cloneEnc != nil {
+			enc = cloneEnc
+		}
+		o.emit(fmt.Sprintf("(proof.run %s %s %s %s %s (%s))", hx(u.p.ka), hs(dloc), hx(u.ticket), hx(dm.Nonce.Rnd), hx(u.rn), strings.Join(ops, " ")), strings.Join(outs, " "))
+	} else {
+		// old style: a non-proof discharge is just a macaroon keyed by rn whose key-id is the ticket - minted today
+		// (three-field nonce) or by an old third party (two-field nonce, hand-built)
+		var d *macaroon.Macaroon
+		if r.Chance(1, 3) {
+			d, _ = macaroon.Decode(oldFormatToken(u.rn, u.ticket, r.Bytes(pick(r, []int{16, 16, 0, 1, 32})), dloc))
+			if d == nil {
+				o.emit("(const match)", "old-format-discharge-does-not-decode")
+			} else {
+				o.count("discharge.nonproof.v0")
+			}
+		}
+		if d == nil {
+			var err error
+			d, err = macaroon.New(u.ticket, dloc, u.rn)
+			if err != nil {
+				o.emit("(const match)", "minting-a-discharge-refused")
+				return legitCand{tp: -1, enc: []byte{}}
+			}
+			o.emit(fmt.Sprintf("(tok.new %s %s %s %s)", hx(u.rn), hx(u.ticket), hs(dloc), hx(d.Nonce.Rnd)), hx(mustEnc(d)))
+		}
+		o.count("discharge.nonproof")
+		its := make([]addItem, len(extra))
+		for j, c := range extra {
+			its[j] = addItem{cav: c}
+		}
+		legitAdd(o, d, its)
+		// the holder of a non-proof discharge may attenuate it further, working from its bytes
+		if r.Chance(1, 3) {
+			if d2, err := macaroon.Decode(mustEnc(d)); err != nil {
+				o.emit("(const match)", "legit-discharge-does-not-decode")
+			} else {
+				d = d2
+				var more []addItem
+				for j, mm := 0, 1+r.Intn(2); j < mm; j++ {
+					more = append(more, addItem{cav: r.legitCav(o, 1, tier)})
+				}
+				legitAdd(o, d, more)
+				o.count("discharge.nonproof.attenuatedAfterHop")
+			}
+		}
+		if r.Bool() {
+			p := parent()
+			before := mustEnc(d)
+			err := d.Bind(p)
+			res := "ok " + hx(mustEnc(d))
+			if err != nil {
+				res = "err:" + addClass(err) + " " + hx(mustEnc(d))
+			}
+			o.emit(fmt.Sprintf("(tok.bind %s %s)", hx(before), hx(p)), res)
+			o.count("bound")
+		}
+		dm = d
+		enc = mustEnc(d)
+	}
+	c := legitCand{tp: -1, enc: enc, fits: true, dloc: dloc, ka: u.p.ka}
+	seenD := map[string]bool{}
+	for _, x := range dm.UnsafeCaveats.Caveats {
+		if _, isBind := x.(*macaroon.BindToParentToken); isBind {
+			continue
+		}
+		b, _ := encOne(x)
+		if !seenD[string(b)] {
+			seenD[string(b)] = true
+			c.cavs = append(c.cavs, x)
+		}
+	}
+	return c
+}
+
+// legitNilValues: histories over values OUTSIDE the modelled value space (a nil key-id, nil maps, nil slices, a nil
+// set pointer: Go writes them as msgpack nil, the model has no nil): judged on the Go side alone - every caveat that
+// Add accepted comes back from Verify, in order, after hops
+func legitNilValues(r *Rng, o *Out) string {
+	return guard(func() string {
+		key := r.Bytes(32)
+		var kid []byte
+		if r.Chance(1, 3) {
+			kid = r.Bytes(4)
+		} else {
+			o.count("nil.kid")
+		}
+		tok, err := macaroon.New(kid, "loc", key)
+		if err != nil {
+			return "nil-values:mint-refused"
+		}
+		var nilCmds flyio.Commands
+		pool := []macaroon.Caveat{&flyio.Apps{}, &flyio.Volumes{}, &flyio.Machines{}, &flyio.FeatureSet{}, &flyio.MachineFeatureSet{}, &flyio.AppFeatureSet{},
+			&flyio.Clusters{}, &flyio.StorageObjects{}, &flyio.Mutations{}, &nilCmds, &flyio.Commands{{Args: nil}}, &resset.IfPresent{Else: 1},
+			&resset.IfPresent{Ifs: &macaroon.CaveatSet{}, Else: 1}, &flyio.IsUser{ID: 7}}
+		var want []macaroon.Caveat
+		seen := map[string]bool{}
+		for s, n := 0, 1+r.Intn(3); s < n; s++ {
+			if r.Bool() {
+				if tok, err = macaroon.Decode(mustEnc(tok)); err != nil {
+					return "nil-values:legit-token-does-not-decode"
+				}
+			}
+			c := pick(r, pool)
+			o.count(fmt.Sprintf("nil.cav.%T", c))
+			if err := tok.Add(c); err != nil {
+				return "nil-values:add-refused"
+			}
+			if b, err := encOne(c); err == nil && !seen[string(b)] {
+				seen[string(b)] = true
+				want = append(want, c)
+			}
+		}
+		t2, err := macaroon.Decode(mustEnc(tok))
+		if err != nil {
+			return "nil-values:legit-token-does-not-decode"
+		}
+		cs, err := t2.Verify(key, nil, nil)
+		if err != nil {
+			return "nil-values:legit-token-rejected"
+		}
+		if sxCavs(cs.Caveats) != sxCavs(want) {
+			return "nil-values:other-caveats-returned"
+		}
+		return "match"
+	})
+}
+
+func legitSameByteLists(a, b [][]byte) bool {
+	if len(a) != len(b) {
+		return false
+	}
+	for i := range a {
+		if (a[i] == nil) != (b[i] == nil) || !bytes.Equal(a[i], b[i]) {
+			return false
+		}
+	}
+	return true
+}
+
+func legitHasKey(ks []macaroon.EncryptionKey, k []byte) bool {
+	for _, x := range ks {
+		if bytes.Equal(x, k) {
+			return true
+		}
+	}
+	return false
+}
+
 func famLegit(r *Rng, o *Out, tier string) {
 	n := 600
 	if tier == "thorough" {
 		n = 6000
 	}
 	for i := 0; i < n; i++ {
-		key := r.Bytes(32)
-		kid := r.Bytes(pick(r, []int{1, 8, 16, 0, 300})) // (also the empty, non-nil key-id: a legal value for New)
-		loc := pick(r, []string{"https://api.fly.io/v1", "loc", ""})
+		key := r.legitKey(o)
+		kid := r.legitKid(o, tier) // (also the empty, non-nil key-id: a legal value for New)
+		loc := r.legitLoc(o, tier)
 		var tok *macaroon.Macaroon
 		var err error
 		if r.Chance(1, 5) {
-			tb := oldFormatToken(key, kid, r.Bytes(16), loc)
+			// the old two-field nonce; its random part was whatever the minting code of the day drew
+			rl := pick(r, []int{16, 16, 16, 0, 1, 15, 17, 32})
+			tb := oldFormatToken(key, kid, r.Bytes(rl), loc)
 			tok, err = macaroon.Decode(tb)
 			o.count("nonce.v0")
+			o.count(fmt.Sprintf("nonce.v0.rnd%d", rl))
 		} else {
 			tok, err = macaroon.New(kid, loc, key)
 			if err == nil {
@@ -112,35 +918,51 @@ func famLegit(r *Rng, o *Out, tier string) {
 			o.count("nonce.v1")
 		}
 		if err != nil {
+			// minting takes any key-id, location and key: a refusal is a finding, not a skipped case
+			o.emit("(const match)", "mint-refused:"+strings.ReplaceAll(err.Error(), " ", "_"))
 			o.count("mint.err")
 			continue
 		}
-		parties := []tpParty{{"https://auth.example", r.Bytes(32)}, {"https://other.example", r.Bytes(32)}, {"tp3", r.Bytes(32)}}
+		parties := r.legitParties(o, tier)
+		tpRate := 4 // one argument in tpRate is a third-party caveat
+		if r.Chance(1, 8) {
+			tpRate = 2
+			o.count("thirdParties.dense")
+		}
 		usedParty := map[string]bool{}
 		var expected []macaroon.Caveat // first-party caveats in order of addition, duplicates collapsed
 		seen := map[string]bool{}
-		type tpUse struct {
-			p      tpParty
-			ticket []byte
-			rn     []byte
-			tcavs  []macaroon.Caveat
-			it     addItem // the very caveat value that was passed to Add
-		}
-		var tps []tpUse
+		var tps []legitTP
 		ancestors := [][]byte{mustEnc(tok)}
 		steps := 1 + r.Intn(4)
+		if r.Chance(1, 20) {
+			steps = 0 // verified as minted
+			o.count("steps.0")
+		}
+		if tier == "thorough" && r.Chance(1, 50) {
+			steps = 8 + r.Intn(8)
+			o.count("steps.many")
+		}
 		dead := false
-		for s := 0; s < steps; s++ {
-			if r.Bool() || (i%97 == 5 && s == 1) { // a hop: the next holder works from the encoded token
-				enc := mustEnc(tok)
-				tok, err = macaroon.Decode(enc)
-				if err != nil {
-					// a token the library itself produced must decode: report it, give up this history
-					o.emit("(dec.mac "+hexb(enc)+")", "err")
-					o.emit("(const match)", "legit-token-does-not-decode:"+strings.ReplaceAll(err.Error(), " ", "_"))
+		freshTP := func(p tpParty) addItem {
+			var tcavs []macaroon.Caveat
+			for j, mm := 0, r.Intn(3); j < mm; j++ {
+				tcavs = append(tcavs, r.legitCav(o, 1, tier))
+			}
+			it, err := newTP(p.ka, p.loc, tcavs...)
+			if err != nil {
+				panic(err)
+			}
+			return it
+		}
+		for s := 0; s < steps && !dead; s++ {
+			if r.Bool() || (i%97 == 5 && s == 1) { // a hop: the next holder works from what the last one sent
+				t2, ok := legitHop(r, o, tok)
+				if !ok {
 					dead = true
 					break
 				}
+				tok = t2
 				o.count("hop")
 			}
 			var items []addItem
@@ -157,43 +979,145 @@ func famLegit(r *Rng, o *Out, tier string) {
 				items = append(items, addItem{cav: &cmds})
 				o.count("add.long")
 			}
+			// ... and more caveats than the decoder pre-allocates room for (1024), added in one call after another
+			if i%293 == 11 && s == 0 {
+				for k := 0; k < 1030; k++ {
+					items = append(items, addItem{cav: &flyio.IsUser{ID: uint64(k)}})
+				}
+				o.count("add.beyondPrealloc")
+			}
+			// nesting: a conditional inside a conditional inside ... (well inside the decoder's depth budget)
+			if r.Chance(1, 40) {
+				d := pick(r, []int{4, 8, 16, 30, 40})
+				var c macaroon.Caveat = r.legitCav(o, 0, tier)
+				for k := 0; k < d; k++ {
+					c = &resset.IfPresent{Ifs: macaroon.NewCaveatSet(c), Else: resset.Action(k)}
+				}
+				if c2, ok := legitStable(o, c); ok {
+					items = append(items, addItem{cav: c2})
+					o.count(fmt.Sprintf("cav.nested.depth%d", d))
+				}
+			}
 			for k, m := 0, r.Intn(4); k < m; k++ {
 				switch {
-				case r.Chance(1, 5) && len(expected) > 0: // byte-identical re-add
-					items = append(items, addItem{cav: pick(r, expected)})
+				case r.Chance(1, 5) && len(expected) > 0: // byte-identical re-add: the same object, or an equal value in another one
+					c := pick(r, expected)
+					if r.Bool() {
+						c = legitCavCopy(c)
+						o.count("readd.copy")
+					}
+					items = append(items, addItem{cav: c})
 					o.count("readd")
-				case r.Chance(1, 4):
+				case r.Chance(1, 6) && len(expected) > 0: // looks like a duplicate, is none
+					if c, ok := legitStable(o, r.nearDup(o, pick(r, expected))); ok {
+						items = append(items, addItem{cav: c})
+						o.count("neardup")
+					}
+				case r.Chance(1, tpRate):
 					p := pick(r, parties)
 					if usedParty[p.loc] {
+						// a second caveat for a location the token already names is refused; the token stays what it
+						// was (with the caveats in front of the refused one added) and remains usable
+						if r.Chance(1, 4) {
+							if r.Bool() {
+								items = append(items, freshTP(p))
+								o.count("add3p.usedLocation.newCaveat")
+							} else {
+								for _, u := range tps {
+									if u.p.loc == p.loc {
+										items = append(items, u.it)
+										o.count("add3p.usedLocation.sameCaveatAgain")
+										break
+									}
+								}
+							}
+						}
 						continue
 					}
 					usedParty[p.loc] = true
-					var tcavs []macaroon.Caveat
-					for j, mm := 0, r.Intn(3); j < mm; j++ {
-						tcavs = append(tcavs, r.plainCav(1))
-					}
-					it, err := newTP(p.ka, p.loc, tcavs...)
-					if err != nil {
-						panic(err)
-					}
+					it := freshTP(p)
 					items = append(items, it)
-					tps = append(tps, tpUse{p, it.tp.ticket, it.tp.rn, tcavs, it})
+					if r.Chance(1, 6) {
+						items = append(items, it) // the same caveat value twice in one call: collapsed
+						o.count("add3p.sameValueTwiceInOneCall")
+					}
 					o.count("add3p")
+				case r.Chance(1, 8): // a duplicate inside ONE call: the same object twice, or an equal copy
+					c := r.legitCav(o, 2, tier)
+					c2 := c
+					if r.Bool() {
+						c2 = legitCavCopy(c)
+					}
+					items = append(items, addItem{cav: c}, addItem{cav: c2})
+					o.count("dup.withinOneCall")
+				case r.Chance(1, 30): // an attestation offered to a non-proof token: refused, the token stays usable
+					items = append(items, addItem{cav: r.attestCav(o)})
+					o.count("add.attestationOnNonProof")
 				default:
-					items = append(items, addItem{cav: r.plainCav(2)})
+					items = append(items, addItem{cav: r.legitCav(o, 2, tier)})
 				}
 			}
-			if err := doAdd(o, tok, items); err != nil {
-				o.count("add.err")
-			}
+			err := legitAdd(o, tok, items)
+			// what the call must have done: duplicates (of the token's caveats, of earlier arguments) dropped, the rest
+			// appended in order up to the first argument that is refused
+			refused := false
+			inCall := map[string]bool{}
 			for _, it := range items {
-				if it.tp != nil {
+				b, _ := encOne(it.cav)
+				if seen[string(b)] || inCall[string(b)] {
 					continue
 				}
-				b, _ := encOne(it.cav)
-				if !seen[string(b)] {
-					seen[string(b)] = true
-					expected = append(expected, it.cav)
+				inCall[string(b)] = true
+				if it.tp != nil {
+					already := false
+					for _, u := range tps {
+						if u.p.loc == it.tp.loc {
+							already = true
+						}
+					}
+					if already {
+						refused = true
+						break
+					}
+					tps = append(tps, legitTP{tpParty{it.tp.loc, it.tp.ka}, it.tp.ticket, it.tp.rn, it.tp.cavs, it})
+					continue
+				}
+				if macaroon.IsAttestation(it.cav) {
+					refused = true
+					break
+				}
+				seen[string(b)] = true
+				expected = append(expected, it.cav)
+			}
+			switch {
+			case err != nil && !refused:
+				o.emit("(const match)", "legit-attenuation-refused:"+addClass(err))
+				o.count("add.err")
+			case err == nil && refused:
+				o.emit("(const match)", "attenuation-that-must-be-refused-went-through")
+			case refused:
+				o.count("add.refused.tokenStaysUsable")
+			}
+			// the convenience entry point for third-party caveats
+			if r.Chance(1, 8) {
+				for _, p := range parties {
+					if usedParty[p.loc] {
+						continue
+					}
+					var tcavs []macaroon.Caveat
+					for j, mm := 0, r.Intn(3); j < mm; j++ {
+						tcavs = append(tcavs, r.legitCav(o, 1, tier))
+					}
+					if it, ok := legitAdd3P(o, tok, p, tcavs); ok {
+						usedParty[p.loc] = true
+						// (it.cav is the token's own copy, sealed key included: adding THAT again is a byte-identical re-add)
+						if b, err := encOne(it.cav); err == nil {
+							seen[string(b)] = true
+						}
+						tps = append(tps, legitTP{p, it.tp.ticket, it.tp.rn, tcavs, it})
+						o.count("add3p.viaAdd3P")
+					}
+					break
 				}
 			}
 			ancestors = append(ancestors, mustEnc(tok))
@@ -202,186 +1126,259 @@ func famLegit(r *Rng, o *Out, tier string) {
 			continue
 		}
 		final := mustEnc(tok)
-		// discharges
-		var ds [][]byte
-		var dischargeCavs []macaroon.Caveat
-		trusted := map[string][]macaroon.EncryptionKey{}
-		for _, u := range tps {
-			proof := r.Chance(3, 4)
-			// the location a discharge carries is the third party's own choice (an argument of DischargeTicket, not
-			// signed into the ticket): a discharge minted under another spelling, another name or none at all is
-			// still the discharge of that ticket; trusted keys are looked up under the discharge's own location
-			dloc := u.p.loc
-			if r.Chance(1, 4) {
-				dloc = pick(r, []string{u.p.loc + "/", strings.ToUpper(u.p.loc), "", "https://elsewhere.example", u.p.loc + "?x=1"})
-				o.count("discharge.otherLocation")
+		// discharges: per third-party caveat one genuine discharge, sometimes a second genuine one (other caveats:
+		// the FIRST presented decides), and candidates that do NOT fit (a discharge of the same ticket bound to
+		// another token, one signed under another key): their failures do not matter
+		var cands []legitCand
+		for ti, u := range tps {
+			c := r.legitDischarge(o, tier, u, final, ancestors)
+			if c.fits {
+				c.tp = ti
 			}
-			var dm *macaroon.Macaroon
-			var extra []macaroon.Caveat
-			for j, mm := 0, r.Intn(3); j < mm; j++ {
-				extra = append(extra, r.plainCav(1))
-			}
-			if proof {
-				tcs, d, err := macaroon.DischargeTicket(u.p.ka, dloc, u.ticket)
-				if err != nil {
-					panic(err)
+			cands = append(cands, c)
+			if r.Chance(1, 5) {
+				c2 := r.legitDischarge(o, tier, u, final, ancestors)
+				if c2.fits {
+					c2.tp = ti
 				}
-				o.count("discharge.proof")
-				if len(tcs) != len(u.tcavs) {
-					o.emit("(const match)", "ticket-caveat-count-mismatch")
-				}
-				dm = d
-				ops := []string{}
-				outs := []string{}
-				for _, c := range extra {
-					err := dm.Add(c)
-					ops = append(ops, "(add "+sxCav(c)+")")
-					if err != nil {
-						outs = append(outs, "add:"+addClass(err))
-					} else {
-						outs = append(outs, "add:ok")
-					}
-				}
-				// a binding caveat is "a prefix of the SHA-256 of the parent's tail": Bind writes 16 bytes, any other
-				// length (shorter, longer, the whole digest) is just as legitimate when written by hand
-				if r.Chance(1, 4) {
-					fm, _ := macaroon.Decode(final)
-					dg := sha256.Sum256(fm.Tail)
-					bc := macaroon.BindToParentToken(dg[:pick(r, []int{1, 2, 8, 15, 17, 20, 31, 32})])
-					err := dm.Add(&bc)
-					ops = append(ops, "(add "+sxCav(&bc)+")")
-					if err != nil {
-						outs = append(outs, "add:"+addClass(err))
-					} else {
-						outs = append(outs, "add:ok")
-					}
-					o.count(fmt.Sprintf("bound.byhand.len%d", len(bc)))
-				}
-				if r.Bool() {
-					parent := pick(r, ancestors)
-					if r.Bool() {
-						parent = final
-					}
-					// only bind to the final token or its ancestors' descendants: final descends from all
-					err := dm.Bind(final)
-					_ = parent
-					ops = append(ops, "(bind "+hx(final)+")")
-					if err != nil {
-						outs = append(outs, "bind:"+addClass(err))
-					} else {
-						outs = append(outs, "bind:ok")
-					}
-					o.count("bound")
-				}
-				// the third party may hand out a CLONE taken before the proof was ever encoded: it is as good
-				var cloneEnc []byte
-				if r.Chance(1, 3) {
-					ops = append(ops, "clone")
-					if cl, err := dm.Clone(); err != nil {
-						outs = append(outs, "clone:err")
-					} else {
-						cloneEnc = mustEnc(cl)
-						outs = append(outs, "clone:"+hx(cloneEnc))
-					}
-					o.count("discharge.clonedBeforeEncode")
-				}
-				enc := mustEnc(dm)
-				ops = append(ops, "encode")
-				outs = append(outs, "enc:"+hx(enc))
-				if cloneEnc != nil {
-					enc = cloneEnc
-				}
-				o.emit(fmt.Sprintf("(proof.run %s %s %s %s %s (%s))", hx(u.p.ka), hs(dloc), hx(u.ticket), hx(dm.Nonce.Rnd), hx(u.rn), strings.Join(ops, " ")), strings.Join(outs, " "))
-				ds = append(ds, enc)
-				if r.Bool() {
-					trusted[dloc] = append(trusted[dloc], u.p.ka)
-				}
-			} else {
-				// old style: a non-proof discharge is just a macaroon keyed by rn whose key-id is the ticket
-				d, err := macaroon.New(u.ticket, dloc, u.rn)
-				if err != nil {
-					panic(err)
-				}
-				o.count("discharge.nonproof")
-				o.emit(fmt.Sprintf("(tok.new %s %s %s %s)", hx(u.rn), hx(u.ticket), hs(dloc), hx(d.Nonce.Rnd)), hx(mustEnc(d)))
-				its := make([]addItem, len(extra))
-				for j, c := range extra {
-					its[j] = addItem{cav: c}
-				}
-				doAdd(o, d, its)
-				if r.Bool() {
-					before := mustEnc(d)
-					err := d.Bind(final)
-					res := "ok " + hx(mustEnc(d))
-					if err != nil {
-						res = "err:" + addClass(err) + " " + hx(mustEnc(d))
-					}
-					o.emit(fmt.Sprintf("(tok.bind %s %s)", hx(before), hx(final)), res)
-					o.count("bound")
-				}
-				dm = d
-				ds = append(ds, mustEnc(d))
-			}
-			seenD := map[string]bool{}
-			for _, c := range dm.UnsafeCaveats.Caveats {
-				if _, isBind := c.(*macaroon.BindToParentToken); isBind {
-					continue
-				}
-				b, _ := encOne(c)
-				if !seenD[string(b)] {
-					seenD[string(b)] = true
-					dischargeCavs = append(dischargeCavs, c)
-				}
+				cands = append(cands, c2)
+				o.count("verify.twoGenuineCandidates")
 			}
 		}
-		// candidates that do NOT fit, presented BEFORE the fitting discharge of the same ticket (a discharge of the
-		// same ticket bound to another token, one signed under another key): verification takes the first that
-		// fits, the failures of the others do not matter
 		if len(tps) > 0 && r.Chance(1, 2) {
-			var front [][]byte
-			for _, u := range tps {
+			var front []legitCand
+			for ti, u := range tps {
 				if r.Bool() {
 					continue
 				}
 				if _, dw, err := macaroon.DischargeTicket(u.p.ka, u.p.loc, u.ticket); err == nil {
 					other, _ := macaroon.New(r.Bytes(4), loc, r.Bytes(32))
 					if dw.Bind(mustEnc(other)) == nil {
-						front = append(front, mustEnc(dw))
+						front = append(front, legitCand{tp: ti, enc: mustEnc(dw), dloc: u.p.loc, ka: u.p.ka})
 					}
 				}
 				if f, err := macaroon.New(u.ticket, u.p.loc, r.Bytes(32)); err == nil && r.Bool() {
-					front = append(front, mustEnc(f))
+					front = append(front, legitCand{tp: ti, enc: mustEnc(f), dloc: u.p.loc, ka: u.p.ka})
 				}
 			}
 			if len(front) > 0 {
-				ds = append(front, ds...)
+				cands = append(front, cands...)
 				o.count("verify.nonFittingCandidatesFirst")
 			}
 		}
-		// shuffle the discharges: presentation order must not matter for which caveats come back... (they
-		// are returned in caveat order), and add junk
-		if r.Chance(1, 3) {
-			ds = append(ds, r.Bytes(10))
+		// the same discharge bytes presented twice
+		if len(cands) > 0 && r.Chance(1, 6) {
+			c := pick(r, cands)
+			cands = append(cands, c)
+			o.count("verify.sameDischargeTwice")
 		}
+		// things that are no discharge of this token at all, anywhere in the list
+		for j, mm := 0, pick(r, []int{0, 0, 1, 1, 2, 3}); j < mm; j++ {
+			var junk []byte
+			switch r.Intn(6) {
+			case 0:
+				junk = r.Bytes(10)
+				o.count("junk.bytes")
+			case 1:
+				junk = []byte{}
+				o.count("junk.empty")
+			case 2:
+				junk = nil
+				o.count("junk.nil")
+			case 3:
+				if t, err := macaroon.New(r.Bytes(8), loc, r.Bytes(32)); err == nil {
+					junk = mustEnc(t)
+				}
+				o.count("junk.unrelatedToken")
+			case 4:
+				junk = final
+				o.count("junk.theTokenItself")
+			default:
+				ka := r.Bytes(32)
+				if c3, err := macaroon.NewCaveat3P(ka, "https://auth.example"); err == nil {
+					if _, d, err := macaroon.DischargeTicket(ka, "https://auth.example", c3.Ticket); err == nil {
+						junk = mustEnc(d)
+					}
+				}
+				o.count("junk.dischargeOfAnotherTicket")
+			}
+			at := r.Intn(len(cands) + 1)
+			cands = append(cands[:at], append([]legitCand{{tp: -1, enc: junk}}, cands[at:]...)...)
+		}
+		// presentation order: any (the result lists the discharges' caveats in CAVEAT order; per ticket the first
+		// presented candidate that fits decides)
+		if r.Chance(1, 2) {
+			for a := len(cands) - 1; a > 0; a-- {
+				b := r.Intn(a + 1)
+				cands[a], cands[b] = cands[b], cands[a]
+			}
+			o.count("verify.dischargesShuffled")
+		}
+		// trusted third-party keys, looked up under the discharge's own location: the right key alone, behind and
+		// in front of keys that do not open the ticket (other keys, keys of the wrong size), only such keys, none
+		var trusted map[string][]macaroon.EncryptionKey
+		putTrust := func(l string, ks ...[]byte) {
+			if trusted == nil {
+				trusted = map[string][]macaroon.EncryptionKey{}
+			}
+			for _, k := range ks {
+				trusted[l] = append(trusted[l], k)
+			}
+		}
+		wrongKey := func() []byte { return r.Bytes(pick(r, []int{32, 32, 32, 16, 0, 33})) }
+		for _, c := range cands {
+			if c.tp < 0 || !c.fits {
+				continue
+			}
+			switch r.Intn(7) {
+			case 0, 1:
+				putTrust(c.dloc, c.ka)
+				o.count("trust.rightKey")
+			case 2:
+				putTrust(c.dloc, wrongKey(), wrongKey(), c.ka, wrongKey())
+				o.count("trust.rightKeyBehindOthers")
+			case 3:
+				putTrust(c.dloc, wrongKey(), wrongKey())
+				o.count("trust.onlyOtherKeys")
+			case 4:
+				putTrust("https://nobody.example", c.ka)
+				o.count("trust.rightKeyUnderAnotherLocation")
+			}
+		}
+		if trusted == nil {
+			if r.Bool() {
+				trusted = map[string][]macaroon.EncryptionKey{}
+			} else {
+				o.count("trust.nilMap")
+			}
+		}
+		ds := make([][]byte, len(cands))
+		for j, c := range cands {
+			ds[j] = c.enc
+		}
+		// what must come back
+		var dischargeCavs []macaroon.Caveat
+		for ti := range tps {
+			for _, c := range cands {
+				if c.tp != ti || !c.fits {
+					continue
+				}
+				trustedD := legitHasKey(trusted[c.dloc], c.ka)
+				for _, x := range c.cavs {
+					if macaroon.IsAttestation(x) && !trustedD {
+						o.count("attestation.untrusted.dropped")
+						continue
+					}
+					if macaroon.IsAttestation(x) {
+						o.count("attestation.trusted.returned")
+					}
+					dischargeCavs = append(dischargeCavs, x)
+				}
+				break
+			}
+		}
+		dsBefore := make([][]byte, len(ds))
+		for j, d := range ds {
+			if d != nil {
+				dsBefore[j] = append([]byte{}, d...)
+			}
+		}
+		trBefore := sxTrust(trusted)
 		obs := verifyObs(key, final, ds, trusted)
 		o.emit(verifyOp(key, final, ds, trusted), obs)
 		want := "ok " + sxCavs(append(append([]macaroon.Caveat{}, expected...), dischargeCavs...))
-		if obs == want {
-			o.emit("(const match)", "match")
+		res := "match"
+		if obs != want {
+			res = "legit-token-not-accepted-as-expected:" + strings.ReplaceAll(obs[:min(len(obs), 60)], " ", "_")
 		} else {
-			o.emit("(const match)", "legit-token-not-accepted-as-expected:"+strings.ReplaceAll(obs[:min(len(obs), 60)], " ", "_"))
+			// verifying is repeatable, works on the object in hand as on its decoded bytes, and leaves the token and its
+			// arguments alone
+			live := guard(func() string {
+				cs, err := tok.Verify(key, ds, trusted)
+				if err != nil {
+					return "err:" + verifyClass(err)
+				}
+				return "ok " + sxCavs(cs.Caveats)
+			})
+			switch {
+			case live != obs:
+				res = "object-in-hand-verifies-differently-from-its-bytes"
+			case verifyObs(key, final, ds, trusted) != obs:
+				res = "second-verification-differs"
+			case !legitSameByteLists(ds, dsBefore) || sxTrust(trusted) != trBefore:
+				res = "verify-rewrote-its-arguments"
+			case !bytes.Equal(mustEnc(tok), final):
+				res = "verify-changed-the-token"
+			}
 		}
+		o.emit("(const match)", res)
 		o.count(fmt.Sprintf("tps.%d", len(tps)))
+		o.count(fmt.Sprintf("discharges.presented.%d", min(len(ds), 8)))
+		// a FORK: two holders attenuate the same token differently (one of them from a Clone, or from the bytes);
+		// neither sees the other's caveat, both tokens verify with the discharges of their common ancestor
+		if r.Chance(1, 4) {
+			var other *macaroon.Macaroon
+			var ferr error
+			if r.Bool() {
+				other, ferr = tok.Clone()
+				o.count("fork.clone")
+			} else {
+				other, ferr = macaroon.Decode(final)
+				o.count("fork.decode")
+			}
+			if ferr != nil {
+				o.emit("(const match)", "legit-token-does-not-clone-or-decode")
+			} else {
+				fresh := func(avoid string) (macaroon.Caveat, string) {
+					for {
+						c := r.legitCav(o, 1, tier)
+						b, _ := encOne(c)
+						if !seen[string(b)] && string(b) != avoid {
+							return c, string(b)
+						}
+					}
+				}
+				ca, ea := fresh("")
+				cb, _ := fresh(ea)
+				// (each holder may add in one call or in two)
+				if r.Bool() {
+					legitAdd(o, other, []addItem{{cav: ca}})
+					legitAdd(o, tok, []addItem{{cav: cb}})
+				} else {
+					legitAdd(o, tok, []addItem{{cav: cb}})
+					legitAdd(o, other, []addItem{{cav: ca}})
+				}
+				for _, f := range []struct {
+					t *macaroon.Macaroon
+					c macaroon.Caveat
+				}{{other, ca}, {tok, cb}} {
+					fb := mustEnc(f.t) // (encoded after BOTH holders did their work)
+					obs := verifyObs(key, fb, ds, trusted)
+					o.emit(verifyOp(key, fb, ds, trusted), obs)
+					want := "ok " + sxCavs(append(append(append([]macaroon.Caveat{}, expected...), f.c), dischargeCavs...))
+					if obs == want {
+						o.emit("(const match)", "match")
+					} else {
+						o.emit("(const match)", "forked-token-not-accepted-as-expected:"+strings.ReplaceAll(obs[:min(len(obs), 60)], " ", "_"))
+					}
+				}
+			}
+		}
+		// values outside the modelled value space (nil key-id, nil maps and slices)
+		if r.Chance(1, 10) {
+			o.emit("(const match)", legitNilValues(r, o))
+			o.count("nilValues")
+		}
 		// the SAME third-party caveat value added to a second token (Add copies the caveat "in case the caveat is
 		// added to multiple macaroons"; bundle.Attenuate does exactly that): the second token is as good as the
 		// first - its genuine discharge is accepted, one signed under another key is not
 		if len(tps) > 0 && r.Chance(1, 2) {
-			u := tps[0]
+			u := pick(r, tps)
 			key2 := r.Bytes(32)
 			tok2, err := macaroon.New(r.Bytes(6), loc, key2)
 			if err == nil {
 				o.emit(fmt.Sprintf("(tok.new %s %s %s %s)", hx(key2), hx(tok2.Nonce.KID), hs(loc), hx(tok2.Nonce.Rnd)), hx(mustEnc(tok2)))
-				if doAdd(o, tok2, []addItem{u.it}) == nil {
+				if legitAdd(o, tok2, []addItem{u.it}) == nil {
 					final2 := mustEnc(tok2)
 					_, d2, err := macaroon.DischargeTicket(u.p.ka, u.p.loc, u.ticket)
 					if err == nil {
@@ -462,7 +1459,6 @@ func famLegit(r *Rng, o *Out, tier string) {
 			}
 			o.emit("(const match)", res)
 		}
-		_ = bytes.Equal
 	}
 }
 
